@@ -2,6 +2,7 @@ import KamalProxy.Driver.Control
 import KamalProxy.Driver.Rollout
 import KamalProxy.Driver.Buffer
 import KamalProxy.Driver.Proxy
+import KamalProxy.Driver.Rewrite
 open KamalProxy
 
 /-- one engine = a state type, an initial state and a line step; `reset` starts a new case -/
@@ -27,4 +28,5 @@ def main (args : List String) : IO UInt32 := do
   | ["rollout"] => loop stdin stdout () Driver.Rollout.stepLine (); return 0
   | ["buffer"] => loop stdin stdout () Driver.Buffer.stepLine (); return 0
   | ["proxy"] => loop stdin stdout ({} : Proxy.World) Driver.Proxy.stepLine {}; return 0
+  | ["rewrite"] => loop stdin stdout () Driver.Rewrite.stepLine (); return 0
   | _ => IO.eprintln "usage: kpmodel <engine>"; return 2
